@@ -1,6 +1,7 @@
 """C10 — Base58 / Base58Check are exact inverses and reject exactly the invalid strings."""
 import hashlib
 import itertools
+import random
 
 from ..framework import Prop, mk, guarded, ensure_repo_on_path
 
@@ -54,6 +55,11 @@ class C10(Prop):
     # ------------------------------------------------------------------------------------------
     def generate(self, rng, tier, shard, nshards):
         big = tier == 'thorough'
+        # Every case below belongs to an enumeration that is partitioned over the shards by a running index (or,
+        # for the edit neighbourhoods, by the index of the valid string).  All randomness that feeds it therefore
+        # comes from one shard-INDEPENDENT generator: every shard walks the identical case list and keeps its share.
+        # (harness/tools/partition_selftest.py checks: union of the shards = the full enumeration, nothing twice.)
+        crng = random.Random('%s:%s:%s:common' % (getattr(self, 'seed', 0), self.id, tier))
         i = 0
 
         def mine(case_iter):
@@ -64,12 +70,12 @@ class C10(Prop):
                     yield c
 
         yield from mine(self.gen_exhaustive(big))
-        yield from mine(self.gen_sampled(rng, big))
-        yield from mine(self.gen_invalid(rng, big))
-        yield from mine(self.gen_versions(rng, big))
-        yield from mine(self.gen_short(rng, big))
+        yield from mine(self.gen_sampled(crng, big))
+        yield from mine(self.gen_invalid(crng, big))
+        yield from mine(self.gen_versions(crng, big))
+        yield from mine(self.gen_short(crng, big))
         # the edit neighbourhoods are large: partition by valid string, not by case
-        for j, (v, p) in enumerate(self.valid_items(rng, big)):
+        for j, (v, p) in enumerate(self.valid_items(crng, big)):
             if j % nshards != shard:
                 continue
             yield from self.gen_edits(v, p)
